@@ -1467,7 +1467,9 @@ class GroupBy:
 
             arr_len = lengths.pop()
 
-            could_be_non_reduce = arr_len == (len(self) if mask is None else mask.sum())
+            # aligned with its input = as long as all the rows handed to func
+            # (rows with a null key belong to no group and are not handed over)
+            could_be_non_reduce = arr_len == sum(len(a) for a in array_splits[0])
             could_be_fixed_length = arr_len % len(group_index) == 0
             if could_be_non_reduce and could_be_fixed_length:
                 # very unlikely for large data
